@@ -36,6 +36,10 @@ TRUSTED = [
     "Coq 8.16.1 kernel and vm_compute; no axioms; no extraction",
 ]
 ASSUMPTIONS = [
+    "several saves in one process (thread pool and per-thread state survive): [save fails on an objectLibs key, key "
+    "removed, save again], [save below a directory so deep that one long-named glif exceeds PATH_MAX: I/O error while "
+    "the glifs are written, then save elsewhere], [save, save again twice elsewhere]; every successful save's tree and "
+    "reloaded font must equal the sequential build's. Not modelled (the model has no state that outlives a save)",
     "API edit histories: half of the generated UFOs are edited after loading, identically in both builds, through the "
     "public container API (insert_glyph, remove_glyph, rename_glyph, get_glyph_mut, and the raw Layer::entry: or_insert "
     "of names sorting first/middle/last, and_modify, Occupied::remove) before saving; trees, post-edit state and the "
@@ -119,7 +123,9 @@ def compare(ctx, out, known_ids, threads, ufo_ids, store_replay=True):
                 b = gbase[i] if i < len(gbase) else "<end>"
                 c = next((j for j in range(min(len(a), len(b))) if a[j] != b[j]), min(len(a), len(b)))
                 lo = max(0, c - 120)
-                part = ("font reloaded from the saved tree" if a.lstrip().startswith(("RG", "RLAYER", "RELOAD")) else
+                part = ("a later save in the same process (after a failed save / a repair / a first save)"
+                        if a.startswith(("STEP", "TREE2", "RELOAD2")) else
+                        "font reloaded from the saved tree" if a.lstrip().startswith(("RG", "RLAYER", "RELOAD")) else
                         "outcome / state after the API edit script" if a.startswith(("OP", "POST")) else
                         "load dump / Ok-Err status")
                 what = {"part": part, "first_difference_line": i, "first_difference_column": c,
